@@ -31,7 +31,7 @@ CHECKS = {
             "Round closing rule (not early / not late / one left / no betting when all-in / full board) with history variables "
             "maintained by the trace specification; all interleavings in the model-checking scope, real traces validated."),
     "C06": ("spec/HoldemProps.tla C06_* + liveness Terminates under WF in MCHoldem",
-            "Single wait point, expected step succeeds, street order, result iff closed, closed is final; termination as liveness on the "
+            "Single wait point and a single indication (no seat is offered an action while a table operation is awaited), expected step succeeds, street order, result iff closed, closed is final; termination as liveness on the "
             "model and as bounded non-progress on every real trace; Start defects singly and in pairs."),
     "C15": ("spec/ViewProps.tla FailedView on every recorded state x every seat + observer, with a generic card-symbol leak scan",
             "Deck and burned cards never in a view; other players' hole cards and evaluations hidden before the close, folded ones after it; the "
@@ -46,11 +46,13 @@ CHECKS = {
             "backend for every call) stay equal after every call incl. refused ones, with equal errors; the backend leaves its input untouched; "
             "a second in-memory run is identical; whole hands driven through table/game.go (ready group, auto-next, every call through the "
             "stateless backend) stay equal to an in-memory game and conform to the model TableGame.tla. In the model re-hydration is a "
-            "stuttering step enabled at every wait point."),
+            "stuttering step enabled at every wait point. Whole tables (table/table.go hand loop over several hands, all game calls through the stateless backend) "
+            "conform to Table.tla, which MCTable model-checks."),
     "C08": ("spec/SeatProps.tla C08_positions + late-joiner history tracking, on the real SeatManager's own state graph and histories",
             "Positions after every successful Next and the late-joiner rule (tracked from the join while the other seats stay put) as TLA+ "
             "predicates; MCSeat checks the precise model for all histories on 3 seats (4, 5 thorough); the real manager's reachable graph is "
-            "enumerated (3 seats with identities, 5 seats up to identities) and every call validated, plus random and TLC-generated histories. "
+            "enumerated (3 seats with identities, 5 seats up to identities) and every call validated, plus random and TLC-generated histories, a committed corpus "
+            "(one script per signature class of calls of the complete 3..6-seat graphs, with late-joiner runs) and the positions of the seat manager as the real table uses it. "
             "One open known finding (F8)."),
     "C09": ("spec/RegProps.tla C09_* on every call of real tournaments (queue read through the verif snapshot hook)",
             "Every live player in exactly one place (queue or one table), no duplicates, the regulator's totals equal the real numbers wherever "
@@ -70,15 +72,16 @@ CHECKS = {
             "Forced bets: antes to the pot, blinds by role capped at the stack, wager to match = largest blind, minimum raise = bb; "
             "sweep over boundary stacks for every structure; the bb-only structure is a recorded known finding (F6)."),
     "C14": ("spec/HoldemProps.tla C14_* (consumed prefix, counts per street, stability, shuffle is a permutation)",
-            "Dealt cards are exactly the consumed top of the deck in dealing order, never change, counts per street, and Start's shuffle "
+            "Dealt cards are, as a collection and each once, exactly the consumed top of the deck (burn before its street), never change, counts per street, and Start's shuffle "
             "is a permutation; real shuffles and forced decks, both decks, 2 and 4 hole cards."),
     "C17": ("spec/SeatProps.tla C17_button/C17_insufficient on every Next of the real SeatManager's state graph and histories",
-            "Button moves to the first playable seat clockwise, never stalls or skips; fewer than two able to play => the insufficient-players "
+            "Button moves to the first playable seat clockwise from the dealer the last move left behind (a history variable: seat operations other than Next do not move the button), never stalls or skips; fewer than two able to play => the insufficient-players "
             "error, never a panic; same exploration as C08."),
     "C18": ("spec/SeatProps.tla C18_* incl. concurrent Join episodes under a decided schedule (gate hook) + SeatJoinConc.tla",
             "Join/Leave/any-seat semantics, seated = joins - leaves, no panic on any call incl. out-of-range seats; concurrent joins: one "
             "goroutine is held between check and commit by the verif gate hook while the others must block on the mutex; the episode "
-            "predicates are order-free; SeatJoinConc model-checks all interleavings of Lock/Check/Commit/Unlock; match.Table (match/table.go) "
+            "predicates are order-free; SeatJoinConc model-checks all interleavings of Lock/Check/Commit/Unlock for 3 goroutines and SeatJoinProof proves the protocol invariants "
+            "with TLAPS for any number of goroutines and seats; match.Table (match/table.go) "
             "is driven as a client of the seat manager (Join, ApplySeatChanges with callbacks)."),
     "C19": ("spec/RegProps.tla C19_* over a sweep of all settings 2<=min<=max<=6 (10 thorough) x registrant counts x batch modes",
             "No request/assign/sync hand-out ever makes a table exceed the maximum, no table before the start or before min registrants, "
